@@ -444,6 +444,8 @@ fn c04_bounds(rep: &mut Rep) {
                     _ => rep.check("C04.range_from_element.range_ends_are_the_bounds", matches!(&r, Ok((mn, mx, _, false)) if *mn == lo(e) && *mx == hi(e)), d),
                 }
                 rep.check("C04.range_from_element.extensible_iff_the_element_is", matches!(&r, Ok((_, _, x, _)) if *x == ext(e)), d);
+                let sz = SubtypeElements::SizeConstraint(Box::new(ElementOrSetOperation::Element(e.clone())));
+                rep.check("C04.range_from_element.size_of_an_element_is_a_size_bound", matches!(hook_range_from_element(Some(&sz)), Ok((mn, mx, x, true)) if mn == lo(e) && mx == hi(e) && x == ext(e)), || format!("SIZE({te})"));
                 for outer in [false, true] {
                     let c = Constraint::Subtype(ElementSetSpecs { set: ElementOrSetOperation::Element(e.clone()), extensible: outer });
                     let d = || format!("({te}{})", if outer { ", ..." } else { "" });
@@ -477,6 +479,15 @@ fn c04_bounds(rep: &mut Rep) {
             }
             if r.is_err() {
                 rep.check("C04.fold_constraint_set.two_elements_rejected_only_if_empty", *t1 == "^" && matches!(a, SubtypeElements::SingleValue { .. }) && matches!(b, SubtypeElements::SingleValue { .. }) && lo(a) != lo(b), d);
+            }
+            // SIZE( the same expression )
+            {
+                use rasn_compiler::verif_hooks::hook_range_from_element;
+                let sz = SubtypeElements::SizeConstraint(Box::new(ElementOrSetOperation::SetOperation(set.clone())));
+                let d = || format!("SIZE({ta} {t1} {tb})");
+                if let Ok((mn, mx, x, is_size)) = hook_range_from_element(Some(&sz)) {
+                    rep.check("C04.range_from_element.size_of_a_set_expression_is_a_size_bound", is_size && x == (ext(a) || ext(b)) && probes.iter().all(|v| !in_set(*v) || (mn.map_or(true, |m| m <= *v) && mx.map_or(true, |m| *v <= m))), d);
+                }
             }
             // the same expression as a constraint, with and without the outer marker
             for outer in [false, true] {
